@@ -21,7 +21,9 @@ EXPLANATION = (
     "the result cache; R2 applies to all of them and tolerates a branch on a counter's value only when it decides nothing but what is "
     'written back to that same counter (a running maximum); any other kind of shared mutable field is a violation. R2 resolves guards '
     'held in locals (also after a &mut use) to their lock; R1 objects only to mutable or interior-mutable statics that code reachable '
-    'from the tasks refers to.'
+    'from the tasks refers to. Counters may also be atomics or a per-worker vector of atomics (Arc<Vec<AtomicUsize>>); such slots must '
+    'be addressed through checked accessors (get / iter) in code reachable from the root tasks - a panicking index depends on the pool '
+    'the search runs in.'
 )
 ASSUMPTIONS = [
     "rayon: collect() of an indexed parallel iterator preserves the order of the underlying slice",
@@ -35,7 +37,7 @@ SEARCH = AB + 'alpha_beta_search'
 MINIMAX = AB + 'alpha_beta_minimax'
 COUNTERS = {'searched_position_count', 'cache_hit_count', 'termination_count'}
 LOCK_FIELDS = COUNTERS | {'search_result_cache'}
-INT_LOCK = re.compile(r'^(std::sync::Arc<)?std::sync::(RwLock|Mutex)<(usize|u8|u16|u32|u64|u128|isize|i8|i16|i32|i64|i128|bool)>>?$|^(std::sync::Arc<)?std::sync::atomic::Atomic\w+>?$')
+INT_LOCK = re.compile(r'^(std::sync::Arc<)?std::sync::(RwLock|Mutex)<(usize|u8|u16|u32|u64|u128|isize|i8|i16|i32|i64|i128|bool)>>?$|^(std::sync::Arc<)?(std::vec::Vec<)?std::sync::atomic::Atomic(\w+|<\w+>)>?>?$')
 
 
 def init_fields(facts):
@@ -111,6 +113,22 @@ def r1_inventory(ctx):
     ctx.ob(rule, SC, 'interior-mutable fields are the result cache and integer counters', set(locks) == LOCK_FIELDS and 'search_result_cache' in locks and len(COUNTERS) >= 3,
            found=locks, expected='search_result_cache + counters of an integer type, each behind its own lock',
            why='any other shared mutable state (a board, a generator, a move list behind a lock) couples the root tasks')
+    # a collection of counters (one slot per worker) is sized at some moment for some pool; a task that addresses its slot with a panicking
+    # index (`counts[i]`) panics under a pool with more workers than slots - only the checked accessors (get / iter) are schedule-free
+    vec_counters = {n_ for n_, ty_ in locks.items() if 'Vec<' in ty_}
+    if vec_counters:
+        panicking = []
+        for rn in sorted(facts.reachable_fns(PAR_CLOSURES[:1])):
+            rf = facts.fns.get(rn)
+            if rf is None or rf.crate != 'chess':
+                continue
+            for b_, t_ in rf.calls():
+                cn = facts.callee_name(t_) or ''
+                if ('ops::Index' in cn or 'ops::index::Index' in cn) and cn.endswith(('::index', '::index_mut')) and \
+                        any('Atomic' in (ty_ or '') for ty_ in (t_.get('arg_tys') or [])[:1]):
+                    panicking.append((rn, t_.get('span')))
+        ctx.ob(rule, SC, 'per-worker counter slots are addressed through checked accessors (no panicking index)', not panicking, found=panicking[:4], expected=[],
+               why='the number of workers of the pool a search runs in is not the number the slots were allocated for: an unchecked index panics in some schedules')
     others = {}
     for path, a in facts.adts.items():
         if not path.startswith('chess::') or path == SC:
